@@ -5,12 +5,18 @@ import cybuild
 TITLE = "Exception handling semantics match CPython"
 EXTRACTS = ["Exc"]
 RULE = ("generated functions: nested try/except(typed, bare, as-name)/else/finally, with-blocks "
-        "(pass-through, swallowing, raising __exit__), for-loops with return/break/continue, with a "
-        "raise (new / from None / from new / from name / of a name / bare) injected at every position of "
-        "every shape pair (systematic family, depth 2) and random trees of depth <= 3; every block logs "
-        "itself and probes sys.exc_info(); each function is run in three calling contexts (nothing "
-        "handled, inside a handler, from a generator frame inside a handler). distinct by (program, "
-        "context); non-trivial = at least one exception is raised while the trace has >= 2 events")
+        "(pass-through, swallowing, raising __exit__), for-loops with return/break/continue. Families: "
+        "(a) hit-point templates: every statement shape (5 handler lists x else x finally, try/finally, 3 kinds "
+        "of with) alone and nested at every clause position (body, each handler, else, finally, with body) of "
+        "every outer shape, with a raise point in EVERY clause of both statements; one compiled function is run "
+        "under all plans 'the clauses in set P (|P| <= 2, all singles, all/sampled pairs) raise classes c(p) in "
+        "{E3,E4,E5}' so that every position raises classes its own / the outer handlers match and do not match, "
+        "incl. bodies that cannot raise; (b) a raise (new / from None / from new / from name / of a name / bare) "
+        "or return/break injected at every position of every shape pair, else clauses reached; (c) random trees "
+        "of depth <= 3; (d) hand-written regressions. Every block logs itself and probes sys.exc_info(); each "
+        "function is run in three calling contexts (nothing handled, inside a handler, from a generator frame "
+        "inside a handler). distinct by (program after plan specialisation, context); non-trivial = at least one "
+        "exception is raised while the trace has >= 2 events")
 EXPLANATION = ("theorems: for ALL programs of the statement language without with-blocks (raise / raise from / "
                "bare raise, try/except typed-bare-as with the implicit deletion, else, finally, loops with "
                "return/break/continue, probes; any nesting) and all calling contexts, the compiler scheme "
@@ -21,10 +27,23 @@ EXPLANATION = ("theorems: for ALL programs of the statement language without wit
                "semantics -- unconditionally for the repaired ReraiseStatNode, and for the current code unless the "
                "zeroed-temps state is reached (refuted with a witness); the top exc_info item is restored exactly "
                "when nothing is handled underneath or ExceptionSave is repaired (refuted otherwise); finally runs "
-               "once; return in finally swallows. partial: with-blocks (WithTransform) are modelled and run in the "
+               "once; return in finally swallows. Label level (M_ExcLab): gen mirrors the label allocations and "
+               "assignments of TryExcept/ExceptClause/TryFinally/With/loop code generation over the mutable label state "
+               "(error, return, break, continue label); exec_lab dispatches on the label an exit jumps to; proved for "
+               "ALL statements (with-blocks included), all label states and machine states: the label code leaves by "
+               "exactly the label standing for the scheme's outcome (so the handler set active at each clause position "
+               "is the structural one), labels are restored after each statement, whole functions run_lab = run_sch, "
+               "hence = CPython on the proved fragment; exits of an else clause bypass the statement's own handlers; "
+               "refuted for the variant that switches the error label after the else clause. The running compiler is "
+               "tied to it dynamically (compiled vs run_lab vs CPython on every case) and statically (the error label "
+               "of every block marker in the generated C equals the model's up to an order-preserving renaming). "
+               "partial: with-blocks (WithTransform) are modelled and run in the "
                "correspondence but not covered by the theorems; except* is differential only (compiled vs CPython, "
                "no model); tracebacks and yield inside try are excluded.")
-TRUSTED = ["reference semantics exec_ref written from CPython 3.12 ceval.c/errors.c (validated against the "
+TRUSTED = ["label model simplifications: break/continue labels always allocated, every finally copy generated, "
+           "can_raise=False specialisation (no Save/Reset when the try body has no error exit) not modelled",
+           "plan specialisation: a call _h(k) that raises class c == an inline 'raise _new(c)' at that position",
+           "reference semantics exec_ref written from CPython 3.12 ceval.c/errors.c (validated against the "
            "running CPython on every case)",
            "CPython 3.12 as the property oracle",
            "gcc as a conforming C compiler"]
@@ -61,6 +80,11 @@ def D(e, depth=4):
                                      D(e.__context__, depth - 1), 1 if e.__suppress_context__ else 0)
 def _b(n):
     LOG.append("B%d" % n)
+PLAN = {}
+def _h(k):
+    c = PLAN.get(k)
+    if c is not None:
+        raise _new(c)
 def _t():
     return True
 def _p():
@@ -78,9 +102,11 @@ class _cm(object):
             raise CLS[self.c]()
         return False
 
-def run_case(f, ctx):
+def run_case(f, ctx, plan=()):
     """returns 'trace => outcome after=.. resume=..'"""
     reset()
+    PLAN.clear()
+    PLAN.update(plan)
     res = {}
     def call():
         exc = None
@@ -144,6 +170,12 @@ def run(modname, fname, ctx, which):
     else:
         f = load_py(modname)[fname]
     return c22h.run_case(f, ctx)
+def run_plans(modname, fname, which, ctxs, plans):
+    if which == "cy":
+        f = getattr(importlib.import_module(modname), fname)
+    else:
+        f = load_py(modname)[fname]
+    return [c22h.run_case(f, c, [tuple(x) for x in pl]) for pl in plans for c in ctxs]
 def run_star(modname, fname, which):
     if which == "cy":
         f = getattr(importlib.import_module(modname), fname)
@@ -190,6 +222,8 @@ def toks_stmt(s):
         return [t]
     if t == "log":
         return ["log", str(s[1])]
+    if t == "hit":            # static view of a raise point: a call with an error exit
+        return ["log", str(1000 + s[1])]
     if t == "raise":
         return ["raise"] + [str(x) for x in s[1]] + [str(x) for x in s[2]]
     if t == "try":
@@ -226,6 +260,8 @@ def src_stmt(s, ind, out):
         out.append(ind + "_b(%d)" % s[1])
     elif t == "probe":
         out.append(ind + "_p()")
+    elif t == "hit":
+        out.append(ind + "_h(%d)" % s[1])
     elif t == "raise":
         w = "_new(%d)" % s[1][1] if s[1][0] == "new" else "x%d" % s[1][1]
         c = s[2]
@@ -432,7 +468,7 @@ def shapes():
     """each shape: function(holes: dict position -> block) -> statement, and its positions"""
     def s_try(h): return ("try", h["body"], [(3, None, h["h1"]), (None, None, h["h2"])], None)
     def s_tryas(h): return ("try", h["body"], [(0, 1, h["h1"])], None)
-    def s_tryelse(h): return ("try", h["body"], [(4, None, h["h1"])], h["else"])
+    def s_tryelse(h): return ("try", h["body"], [(3, None, h["h1"])], h["else"])
     def s_fin(h): return ("fin", h["body"], h["fin"])
     def s_tef(h): return ("fin", [("try", h["body"], [(0, 2, h["h1"])], None)], h["fin"])
     def s_wpass(h): return ("with", 90, ("xpass",), h["body"])
@@ -468,10 +504,12 @@ def systematic():
                             if extra is not None:
                                 b.append(extra)
                             return b
-                        # a first raise in the inner body so that handlers are reached, then the action
+                        # a first raise in the inner body so that handlers are reached (not when the
+                        # action sits in the else clause: the body must complete), then the action
                         ih = {}
                         for p in ipos:
-                            ih[p] = blk(act if p == ap else (("raise", ("new", 3), ("nocause",)) if p == "body" else None))
+                            ih[p] = blk(act if p == ap else
+                                        (("raise", ("new", 3), ("nocause",)) if (p == "body" and ap != "else") else None))
                         inner = inf(ih)
                         oh = {}
                         for p in opos:
@@ -483,10 +521,149 @@ def systematic():
                                 b.append(("probe",))
                                 oh[p] = b
                             else:
-                                oh[p] = blk(("raise", ("new", 5), ("nocause",)) if (p == "body" and ip != "body") else None)
+                                oh[p] = blk(("raise", ("new", 5), ("nocause",))
+                                            if (p == "body" and ip not in ("body", "else")) else None)
                         outer = of(oh)
                         if names_ok([outer]):
                             yield ("%s.%s/%s.%s/a%d" % (on, ip, inn, ap, ai), [outer, ("probe",)])
+
+
+# ----------------------------------------------------------------------------------------------
+# hit-point templates: a raise point _h(k) in every clause; which points raise which class is chosen
+# at run time (PLAN), so one compiled function covers position x class x handler-set exhaustively
+HANDLER_LISTS = {
+    "t": [(3, None)],                    # one typed clause
+    "at": [(3, 1), (4, None)],           # as-name + typed
+    "tb": [(3, None), (None, None)],     # typed + bare
+    "b": [(None, None)],                 # bare only
+    "ea": [(0, 2)],                      # except Exception as x
+}
+
+
+class Tmpl:
+    """builds one template program; hits/logs are numbered in source order"""
+    def __init__(self):
+        self.nlog = 0
+        self.nhit = 0
+        self.points = []        # (hit id, position name)
+
+    def blk(self, pos, inner=None, can_raise=True):
+        self.nlog += 1
+        b = [("log", self.nlog), ("probe",)]
+        if inner is not None:
+            b.append(inner(self))
+        if can_raise:
+            self.nhit += 1
+            self.points.append((self.nhit, pos))
+            b.append(("hit", self.nhit))
+        return b
+
+
+def shape_try(hl, has_else, has_fin, quiet_body=False):
+    """returns (name, positions, build(t, prefix, inner_at, inner))"""
+    name = "try_%s%s%s%s" % (hl, "_e" if has_else else "", "_f" if has_fin else "", "_q" if quiet_body else "")
+    positions = ["body"] + ["h%d" % i for i in range(len(HANDLER_LISTS[hl]))] + (["else"] if has_else else []) + \
+                (["fin"] if has_fin else [])
+
+    def build(t, prefix, inner_at=None, inner=None):
+        def blk(pos, **kw):
+            return t.blk(prefix + pos, inner if pos == inner_at else None, **kw)
+        if quiet_body:
+            body = []                  # 'pass': the try body has no error exit (can_raise = False)
+        else:
+            body = blk("body")
+        hs = [(pat, nm, blk("h%d" % i)) for i, (pat, nm) in enumerate(HANDLER_LISTS[hl])]
+        st = ("try", body, hs, blk("else") if has_else else None)
+        if has_fin:
+            st = ("fin", [st], blk("fin"))
+        return st
+    return name, positions, build
+
+
+def shape_fin():
+    def build(t, prefix, inner_at=None, inner=None):
+        def blk(pos):
+            return t.blk(prefix + pos, inner if pos == inner_at else None)
+        return ("fin", blk("body"), blk("fin"))
+    return "fin", ["body", "fin"], build
+
+
+def shape_with(kind):
+    xk = {"wpass": ("xpass",), "wsw": ("xswallow",), "wr": ("xraise", 4)}[kind]
+    k = {"wpass": 90, "wsw": 91, "wr": 92}[kind]
+
+    def build(t, prefix, inner_at=None, inner=None):
+        return ("with", k + (5 if prefix == "i." else 0), xk, t.blk(prefix + "body", inner if inner_at == "body" else None))
+    return kind, ["body"], build
+
+
+def template_shapes():
+    sh = [shape_try("t", True, False), shape_try("at", True, True), shape_try("tb", True, False),
+          shape_try("b", True, True), shape_try("ea", True, False), shape_try("t", False, True),
+          shape_fin(), shape_with("wpass"), shape_with("wsw"), shape_with("wr"),
+          shape_try("t", True, False, quiet_body=True), shape_try("b", True, True, quiet_body=True)]
+    return sh
+
+
+def templates():
+    """yield (tag, program, points): all single shapes, then every shape nested at every position of
+    every outer shape"""
+    sh = template_shapes()
+    for name, pos, build in sh:
+        t = Tmpl()
+        st = build(t, "o.")
+        yield ("tmpl/%s" % name, [st, ("probe",)], t.points)
+    outer = [x for x in sh if not x[0].endswith("_q") and x[0] != "wr"]
+    inner = [x for x in sh if x[0] not in ("wpass",)]
+    for on, opos, obuild in outer:
+        for ip in opos:
+            for inn, ipos, ibuild in inner:
+                t = Tmpl()
+                st = obuild(t, "o.", ip, lambda tt: ibuild(tt, "i."))
+                prog = [st, ("probe",)]
+                if names_ok(prog):
+                    yield ("tmpl/%s.%s/%s" % (on, ip, inn), prog, t.points)
+
+
+def plans_for(points, rng, npairs, ntriples=0):
+    """the empty plan, every single raise point x class, pairs (all of them when npairs is None)"""
+    ids = [k for k, _ in points]
+    out = [()]
+    for k in ids:
+        for c in (3, 4, 5):
+            out.append(((k, c),))
+    pairs = [((a, ca), (b, cb)) for i, a in enumerate(ids) for b in ids[i + 1:] for ca in (3, 4, 5) for cb in (3, 4, 5)]
+    if npairs is not None and len(pairs) > npairs:
+        pairs = rng.sample(pairs, npairs)
+    out += pairs
+    for _ in range(ntriples):
+        if len(ids) >= 3:
+            tr = sorted(rng.sample(ids, 3))
+            out.append(tuple((k, rng.choice((3, 4, 5))) for k in tr))
+    return out
+
+
+def specialise(b, plan):
+    """the program the function behaves as under a plan: a raising point is an inline raise, the others vanish"""
+    d = dict(plan)
+    out = []
+    for s in b:
+        t = s[0]
+        if t == "hit":
+            if s[1] in d:
+                out.append(("raise", ("new", d[s[1]]), ("nocause",)))
+        elif t == "try":
+            out.append(("try", specialise(s[1], plan), [(pt, nm, specialise(hb, plan)) for pt, nm, hb in s[2]],
+                        None if s[3] is None else specialise(s[3], plan)))
+        elif t == "fin":
+            out.append(("fin", specialise(s[1], plan), specialise(s[2], plan)))
+        elif t == "with":
+            out.append(("with", s[1], s[2], specialise(s[3], plan)))
+        elif t == "loop":
+            out.append(("loop", s[1], specialise(s[2], plan)))
+        else:
+            out.append(s)
+    return out
 
 
 # hand-written regression programs for the two defect families and the optimised paths
@@ -625,17 +802,124 @@ def model_view(mm, ctx):
     return {"log": mm["log"], "out": mm["out"], "after": mm["after"], "resume": resume}
 
 
-def build_modules(ctx, progs, per_module):
+def build_modules(ctx, progs, per_module, prefix="c22m"):
     specs, index = [], []
     for i in range(0, len(progs), per_module):
         chunk = progs[i:i + per_module]
-        name = "c22m%d" % (i // per_module)
-        src = ["# cython: language_level=3", "from c22h import _b, _p, _t, _new, _cm, E3, E4, E5", ""]
-        for j, (tag, p) in enumerate(chunk):
-            src.append(func_source("f%d" % j, p))
-            index.append((name, "f%d" % j, tag, p))
+        name = "%s%d" % (prefix, i // per_module)
+        src = [MODHEAD]
+        for j, item in enumerate(chunk):
+            src.append(func_source("f%d" % j, item[1]))
+            index.append((name, "f%d" % j) + tuple(item))
         specs.append(dict(name=name, source="\n".join(src), workdir=ctx.workdir, cflags=["-O0"]))
     return specs, index
+
+
+MODHEAD = "# cython: language_level=3\nfrom c22h import _b, _p, _t, _h, _new, _cm, E3, E4, E5\n"
+
+
+def build_all(ctx, specs, index):
+    """build; a module that does not build is split into one module per function so that the
+    failing programs are identified (ctx.fail) and the others still run.  Returns the usable index."""
+    built = cybuild.build_many(specs, jobs=12)
+    bad = {sp["name"]: err for (so, err), sp in zip(built, specs) if err is not None}
+    if not bad:
+        return index
+    single, where = [], []
+    for k, ent in enumerate(index):
+        if ent[0] in bad:
+            name = "%s_%s" % (ent[0], ent[1])
+            single.append(dict(name=name, source=MODHEAD + "\n" + func_source(ent[1], ent[3]),
+                               workdir=ctx.workdir, cflags=["-O0"]))
+            where.append(k)
+    rebuilt = cybuild.build_many(single, jobs=12)
+    out = list(index)
+    nfail = 0
+    for (so, err), sp, k in zip(rebuilt, single, where):
+        ent = index[k]
+        if err is None:
+            out[k] = (sp["name"],) + tuple(ent[1:])
+        else:
+            out[k] = None
+            nfail += 1
+            inp = {"tag": ent[2], "tokens": " ".join(toks_block(ent[3])), "source": func_source(ent[1], ent[3])}
+            ctx.fail("valid_program_does_not_build", inp, str(err)[-1200:], "the function compiles (CPython runs it)")
+    if nfail == 0:
+        for name, err in bad.items():
+            ctx.corr_break("build " + name, name, str(err)[-1500:], "module builds")
+    return [e for e in out if e is not None]
+
+
+# ---------------- static tie: error label of every block marker in the generated C ----------------
+C_FUNC = re.compile(r"^static PyObject \*__pyx_pf_\w+?_\d*(f\d+)\([^;{]*\) \{\n", re.M)
+C_ERR = re.compile(r"__PYX_ERR\(\d+, (\d+), (__pyx_L(\d+)(?:_(\w+))?)\)")
+
+
+def c_sites(workdir, modname):
+    """{function: {marker id: set of (label number, kind)}} from <mod>.c / <mod>.pyx"""
+    with open(os.path.join(workdir, modname + ".pyx")) as f:
+        lines = f.read().split("\n")
+    marker = {}
+    for ln, text in enumerate(lines, 1):
+        m = re.match(r"^\s+_b\((\d+)\)\s*$", text)
+        if m:
+            marker[ln] = int(m.group(1))
+        m = re.match(r"^\s+_h\((\d+)\)\s*$", text)
+        if m:
+            marker[ln] = 1000 + int(m.group(1))
+    with open(os.path.join(workdir, modname + ".c")) as f:
+        ctext = f.read()
+    out = {}
+    for m in C_FUNC.finditer(ctext):
+        end = ctext.index("\n}\n", m.end())
+        d = out.setdefault(m.group(1), {})
+        for e in C_ERR.finditer(ctext, m.end(), end):
+            mk = marker.get(int(e.group(1)))
+            if mk is not None:
+                d.setdefault(mk, set()).add((int(e.group(3)), e.group(4) or ""))
+    return out
+
+
+def match_labels(real, model):
+    """is there a strictly increasing, kind-preserving injection phi from the labels of the real code
+    into the labels of the model with phi(real[id]) <= model[id] for every marker id?  (the model
+    generates every copy of a finally clause, the compiler only the used ones, both number labels
+    in generation order).  Returns None if so, else a description of the first obstruction."""
+    for mk in real:
+        if mk not in model:
+            return "marker %d not in the model" % mk
+    rl = sorted({l for v in real.values() for l in v})
+    cand = []
+    for (n, kind) in rl:
+        c = None
+        for mk, v in real.items():
+            if (n, kind) in v:
+                ms = {l for (l, k) in model[mk] if k == kind}
+                c = ms if c is None else (c & ms)
+        if not c:
+            mks = sorted(mk for mk, v in real.items() if (n, kind) in v)
+            return "label L%d_%s used at markers %s: model labels there %s" % (
+                n, kind, mks, {mk: sorted(model[mk]) for mk in mks[:4]})
+        cand.append(sorted(c))
+
+    def dfs(i, last):
+        if i == len(cand):
+            return True
+        for x in cand[i]:
+            if x > last and dfs(i + 1, x):
+                return True
+        return False
+    if not dfs(0, -1):
+        return "no order-preserving assignment: real %s candidates %s" % (rl, cand)
+    return None
+
+
+def parse_sites(line):
+    d = {}
+    for tok in line.split():
+        n, l, k = tok.split(":")
+        d.setdefault(int(n), set()).add((int(l), k))
+    return d
 
 
 def stratum_of(tag, p, ctx_id):
@@ -651,66 +935,180 @@ def stratum_of(tag, p, ctx_id):
             elif s[0] in ("with", "loop"):
                 walk(s[-1])
     walk(p)
-    kind = tag.split("/")[0] if tag.startswith(("fixed", "rand")) else "sys"
+    kind = tag.split("/")[0] if tag.startswith(("fixed", "rand", "tmpl")) else "sys"
     f = "+".join(x for x in ("try", "fin", "with", "loop", "reraise") if x in feats)
     return "%s/ctx%d/%s" % (kind, ctx_id, f)
 
 
 def run(ctx):
+    import time
+    _T0 = [time.time()]
+    def lap(what):
+        if os.environ.get("C22_DEBUG"):
+            print("  [c22] %-12s %.1fs" % (what, time.time() - _T0[0]))
+        _T0[0] = time.time()
     quick = ctx.tier == "quick"
     with open(os.path.join(ctx.workdir, "c22h.py"), "w") as f:
         f.write(HELPER)
     with open(os.path.join(ctx.workdir, "c22run.py"), "w") as f:
         f.write(RUNNER)
+    fx_r, fx_s = (1 if FX_RERAISE else 0), (1 if FX_SLOT else 0)
+    # ---------------- programs ----------------
     progs = list(fixed_programs())
     allsys = list(systematic())
-    nsys, nrand = (26, 20) if quick else (260, 180)
+    nsys, nrand = (26, 20) if quick else (300, 180)
     if nsys < len(allsys):
-        allsys = ctx.rng.sample(allsys, nsys)
+        # stratified: a third of the sample has the action or the inner statement in an else clause
+        grp_e = [x for x in allsys if ".else/" in x[0]]
+        grp_o = [x for x in allsys if ".else/" not in x[0]]
+        ne = min(len(grp_e), nsys // 3)
+        allsys = ctx.rng.sample(grp_e, ne) + ctx.rng.sample(grp_o, nsys - ne)
     progs += allsys
     g = Gen(ctx.rng)
     for i in range(nrand):
         progs.append(("rand/%d" % i, g.program()))
+    tmpl = list(templates())
+    if quick:
+        single = [t for t in tmpl if "/" not in t[0][5:]]
+        nested = [t for t in tmpl if "/" in t[0][5:]]
+        # one nested template per (kind of outer position, inner shape) class, round robin
+        by = {}
+        for t in nested:
+            o, inn = t[0][5:].split("/")
+            posk = o.split(".")[1]
+            posk = "h" if posk.startswith("h") else posk
+            by.setdefault(posk, []).append(t)
+        pick = []
+        for posk in sorted(by):
+            lst = by[posk]
+            ctx.rng.shuffle(lst)
+            seen = set()
+            for t in lst:
+                inn = t[0].split("/")[-1]
+                if inn not in seen and len(seen) < 3:
+                    seen.add(inn)
+                    pick.append(t)
+        tmpl = single + pick
     specs, index = build_modules(ctx, progs, 6 if quick else 20)
-    specs.append(dict(name="c22star", source="# cython: language_level=3\n" + STAR, workdir=ctx.workdir, cflags=["-O0"]))
-    built = cybuild.build_many(specs, jobs=12)
-    bad_mods = set()
-    for (so, err), sp in zip(built, specs):
-        if err is not None:
-            bad_mods.add(sp["name"])
-            ctx.corr_break("build " + sp["name"], sp["name"], str(err)[:1500], "module builds")
-    if bad_mods:
-        return
-    # --- run: compiled and CPython, three calling contexts
+    tspecs, tindex = build_modules(ctx, tmpl, 5 if quick else 12, prefix="c22t")
+    specs_all = specs + tspecs
+    specs_all.append(dict(name="c22star", source="# cython: language_level=3\n" + STAR, workdir=ctx.workdir, cflags=["-O0"]))
+    usable = build_all(ctx, specs_all, index + tindex)
+    index = [e for e in usable if not e[2].startswith("tmpl/")]
+    tindex = [e for e in usable if e[2].startswith("tmpl/")]
+    lap("build")
+    model = ctx.model("exc")
+    # ---------------- static tie: label selection at every block marker ----------------
+    csites = {}
+    sq = []
+    for ent in index + tindex:
+        mod = ent[0]
+        if mod not in csites:
+            try:
+                csites[mod] = c_sites(ctx.workdir, mod)
+            except Exception as e:          # noqa
+                csites[mod] = {}
+                ctx.corr_break("exc:c-parse", mod, repr(e)[:300], "generated C parses")
+        sq.append("sites " + " ".join(toks_block(ent[3])))
+    sres = model.batch(sq)
+    nstatic = 0
+    for ent, line in zip(index + tindex, sres):
+        mod, fn, tag, p = ent[:4]
+        real = csites.get(mod, {}).get(fn)
+        if real is None:
+            ctx.corr_break("exc:c-parse", {"tag": tag, "module": mod, "fn": fn}, "function not found in C", "found")
+            continue
+        if line.startswith("!"):
+            ctx.corr_break("exc:harness", {"tag": tag}, line[:200], "sites")
+            continue
+        bad = match_labels(real, parse_sites(line))
+        nstatic += len(real)
+        if bad is not None:
+            ctx.corr_break("exc:error-label-of-block", {"tag": tag, "source": func_source(fn, p)}, bad[:600],
+                           "the label selection of M_ExcLab.gen")
+    ctx.count("static/error-label-of-block-marker", nstatic)
+    lap("static")
+    # ---------------- run: compiled and CPython, three calling contexts ----------------
     cases, meta = [], []
     for (mod, fn, tag, p) in index:
         for c in (0, 1, 2):
             for which in ("cy", "py"):
                 cases.append(["c22run.run", [mod, fn, c, which]])
-            meta.append((mod, fn, tag, p, c))
-    res = cybuild.call_cases(ctx.workdir, cases, setup="import c22run", alarm=10)
-    # --- model
-    model = ctx.model("exc")
+            meta.append((mod, fn, tag, p, c, ()))
+    tplans = []
+    for (mod, fn, tag, p, points) in tindex:
+        if quick:
+            pl = plans_for(points, ctx.rng, 36)
+        else:
+            pl = plans_for(points, ctx.rng, 160, ntriples=20)
+        tplans.append(pl)
+        for which in ("cy", "py"):
+            cases.append(["c22run.run_plans", [mod, fn, which, [0, 1, 2], [[list(x) for x in q] for q in pl]]])
+    res = cybuild.call_cases(ctx.workdir, cases, setup="import c22run", alarm=60)
+    lap("run")
+    runs = []                      # (cy, py) per meta entry
+    for i in range(len(meta)):
+        runs.append((parse_run(res[2 * i]), parse_run(res[2 * i + 1])))
+    base = 2 * len(meta)
+    for ti, (mod, fn, tag, p, points) in enumerate(tindex):
+        pl = tplans[ti]
+        rc, rp = res[base + 2 * ti], res[base + 2 * ti + 1]
+        if "e" in rp:
+            ctx.corr_break("exc:harness", {"tag": tag}, str(rp)[:300], "CPython runs the template")
+            continue
+        if "e" in rc:
+            # the compiled function killed the worker (or raised out of the harness) under some plan:
+            # run the plans one by one to find it
+            one = cybuild.call_cases(ctx.workdir, [["c22run.run_plans", [mod, fn, "cy", [c], [[list(x) for x in q]]]]
+                                                   for q in pl for c in (0, 1, 2)], setup="import c22run", alarm=10)
+            rcl = [(r["r"][0] if "r" in r else r) for r in one]
+        else:
+            rcl = rc["r"]
+        k = 0
+        for q in pl:
+            for c in (0, 1, 2):
+                meta.append((mod, fn, tag, specialise(p, q), c, q))
+                runs.append((parse_run(rcl[k]), parse_run(rp["r"][k])))
+                k += 1
+    # ---------------- model ----------------
     mq = []
-    for (mod, fn, tag, p, c) in meta:
+    for (mod, fn, tag, p, c, q) in meta:
         tk = " ".join(toks_block(p))
         mq.append("ref %d %s" % (c, tk))
-        mq.append("sch %d %d %d %s" % (1 if FX_RERAISE else 0, 1 if FX_SLOT else 0, c, tk))
-        mq.append("sch 1 %d %d %s" % (1 if FX_SLOT else 0, c, tk))
-    mres = model.batch(mq)
+        mq.append("sch %d %d %d %s" % (fx_r, fx_s, c, tk))
+        mq.append("lab 0 %d %d %d %s" % (fx_r, fx_s, c, tk))
+        mq.append("sch 1 %d %d %s" % (fx_s, c, tk) if not fx_r else "")
+    lap("collect")
+    mres = model.batch([x for x in mq if x])
+    lap("model")
+    if not fx_r:
+        mres4 = mres
+    else:
+        mres4 = []
+        for i in range(0, len(mres), 3):
+            mres4 += [mres[i], mres[i + 1], mres[i + 2], mres[i + 1]]
     nviol = 0
-    for i, (mod, fn, tag, p, c) in enumerate(meta):
-        cy, py = parse_run(res[2 * i]), parse_run(res[2 * i + 1])
-        mref, msch, mfix = [parse_model(x) for x in mres[3 * i:3 * i + 3]]
-        src = func_source(fn, p)
-        inp = {"tag": tag, "ctx": c, "tokens": " ".join(toks_block(p)), "source": src}
+    for i, (mod, fn, tag, p, c, q) in enumerate(meta):
+        cy, py = runs[i]
+        mref, msch, mlab, mfix = [parse_model(x) for x in mres4[4 * i:4 * i + 4]]
+        inp = {"tag": tag, "ctx": c, "tokens": " ".join(toks_block(p))}
+        if q or tag.startswith("tmpl/"):
+            tp = [e for e in tindex if e[0] == mod and e[1] == fn][0][3]
+            inp["plan"] = [list(x) for x in q]
+            inp["source"] = func_source(fn, tp)
+            inp["behaves_as"] = func_source(fn, p)
+        else:
+            inp["source"] = func_source(fn, p)
         ctx.case(stratum_of(tag, p, c), inp, sig=(inp["tokens"], c))
-        if mref is None or msch is None or "crash" in py:
-            ctx.corr_break("exc:harness", inp, str(py)[:300], str(mres[3 * i:3 * i + 2])[:300])
+        if mref is None or msch is None or mlab is None or "crash" in py:
+            ctx.corr_break("exc:harness", inp, str(py)[:300], str(mres4[4 * i:4 * i + 3])[:300])
             continue
         # reference model vs CPython itself
         if model_view(mref, c) != py:
             ctx.corr_break("exc:ref-vs-cpython", inp, py, model_view(mref, c))
+        # label level vs structural scheme (proved equal: run_lab_eq_run_sch)
+        if mlab != msch:
+            ctx.corr_break("exc:lab-vs-sch", inp, mlab, msch)
         klass = classify(msch, mfix, mref, c)
         if msch["out"] == "crash":
             # the scheme reaches the zeroed temps: behaviour of the C code is undefined
@@ -719,12 +1117,15 @@ def run(ctx):
             else:
                 ctx.fail(klass, inp, cy, py, note="model: scheme reaches zeroed handler temps")
             continue
-        if "crash" in cy or model_view(msch, c) != cy:
-            ctx.corr_break("exc:sch-vs-compiled", inp, cy, model_view(msch, c))
+        if "crash" in cy or model_view(mlab, c) != cy:
+            ctx.corr_break("exc:lab-vs-compiled", inp, cy, model_view(mlab, c))
         if cy != py:
             nviol += 1
             if nviol <= 40:
                 ctx.fail(klass, inp, cy, py)
+    lap("compare")
+    ctx.extra["templates"] = len(tindex)
+    ctx.extra["template_plan_cases"] = sum(3 * len(x) for x in tplans)
     # --- except*: differential only
     sc = []
     for j in range(NSTAR):
@@ -759,8 +1160,7 @@ def replay(ctx, obj):
                                setup="import c22run")
     else:
         fn = re.match(r"def (\w+)", inp["source"]).group(1)
-        src = "# cython: language_level=3\nfrom c22h import _b, _p, _t, _new, _cm, E3, E4, E5\n\n" + inp["source"]
-        cybuild.build("c22rp", src, ctx.workdir)
-        r = cybuild.call_cases(ctx.workdir, [["c22run.run", ["c22rp", fn, inp["ctx"], w]] for w in ("cy", "py")],
-                               setup="import c22run")
+        cybuild.build("c22rp", MODHEAD + "\n" + inp["source"], ctx.workdir)
+        r = cybuild.call_cases(ctx.workdir, [["c22run.run_plans", ["c22rp", fn, w, [inp["ctx"]], [inp.get("plan", [])]]]
+                                             for w in ("cy", "py")], setup="import c22run")
     print("replayed:", json.dumps(inp)[:400], "\n compiled:", r[0], "\n cpython :", r[1], "\n expected", obj.get("expected"))
